@@ -480,9 +480,8 @@ theorem keysSeparate_of_B (ks : List (String × Bool)) (t : Table) (h : keysSepa
   have := List.all_eq_true.mp (List.all_eq_true.mp h a ha) b hb
   simpa [h1, h2] using this
 
-/-- KNOWN DEVIATION of the unchanged code, as the model has it: when the merged sort is followed by a command that ignores
-its input order (a second sort, stats), setMergeSettings overwrites the merge settings of the first sort with the
-always-true comparator — and keeps a limit … -/
+/-- setMergeSettings as coded: when a sort is followed by a command that ignores its input order (a second sort, stats), the
+merge settings of the first sort are overwritten with the always-true comparator — while a limit stays in place … -/
 theorem merge_settings_later_sort_drops_order :
     (mergeSettingsOf [sortDP, sortDP] (fun i => if i = 0 then 3 else 10000)).getD 0 {} = { less := .always, limit := some 3 } ∧
     (mergeSettingsOf [sortDP, evalDP, sortDP, statsDP] (fun i => if i = 0 then 3 else 10000)).getD 0 {}
@@ -490,11 +489,31 @@ theorem merge_settings_later_sort_drops_order :
     (mergeSettingsOf [sortDP, headDP, sortDP] (fun i => if i = 0 then 3 else 10000)).getD 0 {} = { less := .sortAt 0, limit := some 3 } := by
   decide
 
-/-- … and a merger with that comparator under a limit does NOT deliver the first rows of the sorted whole (IndexOfMin with an
-always-true `less` picks the last stream): of the two chains' sorted results [id=1] and [id=2] under limit 1 it passes on
-id=2.  `parallel_sort_is_sort` needs the sort's own comparator; for such plans the unchanged code deviates (known finding
-plan-parallel/sort/order-dropped-limit-kept; the Oracle prints no rows for this class) -/
-theorem parallel_sort_order_dropped_counterexample :
+/-- … which is why the merger of parallel sort chains must not take them: SetupQueryParallelism (after the repair) gives it the
+comparator and the limit of the sort it merges, whatever follows in the chain -/
+theorem merger_takes_sort_order (k : Nat) (dps : List Flags) (limitAt : Nat → Nat) (lk : LessKind) (l : Option Nat)
+    (h : (setup k false dps limitAt).merger = .limit lk l) :
+    lk = .sortAt (canParallelSearch dps).2 ∧ l = some (limitAt (canParallelSearch dps).2) := by
+  simp only [setup, setupWith, Bool.false_eq_true, ↓reduceIte] at h
+  split at h
+  · split at h
+    · exact absurd h (by simp)
+    · simp only [Merger.limit.injEq] at h
+      exact ⟨h.1.symm, h.2.symm⟩
+  · exact absurd h (by simp)
+
+/-- the code BEFORE the repair (setupOld: less and limit from the sort's propagated mergeSettings): `sort 3 … | sort …` on
+two CPUs gets a merger with the always-true comparator and limit 3; after the repair the sort's own order -/
+theorem setupOld_merger_order_dropped :
+    (setupOld 2 false [sortDP, sortDP] (fun i => if i = 0 then 3 else 10000)).merger = .limit .always (some 3) ∧
+    (setup 2 false [sortDP, sortDP] (fun i => if i = 0 then 3 else 10000)).merger = .limit (.sortAt 0) (some 3) := by
+  decide
+
+/-- … and a merger with the always-true comparator under a limit does NOT deliver the first rows of the sorted whole
+(IndexOfMin with an always-true `less` picks the last stream): of the two chains' sorted results [id=1] and [id=2] under
+limit 1 it passes on id=2.  `parallel_sort_is_sort` needs the sort's own comparator (fixed: old sig
+plan-parallel/sort/order-dropped-limit-kept) -/
+theorem parallel_sort_order_dropped_counterexample_old :
     (mergerBatches (fun _ _ => true) 1 [[[("id", .int 1)]], [[("id", .int 2)]]]).flatten = [[("id", .int 2)]] ∧
     (mergerBatches (lessKeys [("id", true)]) 1 [[[("id", .int 1)]], [[("id", .int 2)]]]).flatten = [[("id", .int 1)]] := by
   decide
